@@ -83,6 +83,33 @@ macro_rules! struct_node {
                 $( <$fty as Node>::scan(&p.$f, input, out)?; )*
                 Ok(())
             }
+            #[allow(unused_variables)]
+            fn scan_mut(p: &mut <Self as UnsizedType>::Ptr, input: (usize, usize), out: &mut Vec<i128>) {
+                // the sized part through DerefMut, then every unsized field's pointer
+                $( $crate::nodes::acc(out, || { let r: &mut $sty = &mut p.$sf; $crate::nodes::fx_at(&*r, input); 1 }); )*
+                $( {
+                    out.push($crate::nodes::inside::<$fty>(&p.$f, input));
+                    <$fty as Node>::scan_mut(&mut p.$f, input, out);
+                } )*
+            }
+            #[allow(unused_variables)]
+            fn scan_excl<'p, 't, P>(w: &mut ExclusiveWrapper<'p, 't, <Self as UnsizedType>::Ptr, P>, input: (usize, usize), out: &mut Vec<i128>)
+            where
+                ExclusiveWrapper<'p, 't, <Self as UnsizedType>::Ptr, P>: ExclusiveRecurse,
+            {
+                // the sized part through the wrapper's DerefMut, then the generated child wrapper of every unsized field
+                $( $crate::nodes::acc(out, || { let r: &mut $sty = &mut w.$sf; $crate::nodes::fx_at(&*r, input); 1 }); )*
+                $( {
+                    let mut sub = vec![];
+                    $crate::nodes::acc(out, || {
+                        let mut ch = w.$f();
+                        let f = $crate::nodes::inside::<$fty>(&*ch, input);
+                        <$fty as Node>::scan_excl(&mut ch, input, &mut sub);
+                        f
+                    });
+                    out.extend(sub);
+                } )*
+            }
             $crate::default_only_inits!();
         }
     };
@@ -194,6 +221,33 @@ macro_rules! enum_node {
                         Ok(())
                     } )*
                 }
+            }
+            fn scan_mut(p: &mut <Self as UnsizedType>::Ptr, input: (usize, usize), out: &mut Vec<i128>) {
+                // the live variant's payload pointer
+                match &mut p.data {
+                    $( $t::$dv(inner) => {
+                        out.push($discs::$dv as i128);
+                        out.push($crate::nodes::inside::<$dty>(&*inner, input));
+                        <$dty as Node>::scan_mut(inner, input, out);
+                    } )*
+                    $( $t::$uv => out.push($discs::$uv as i128), )*
+                }
+            }
+            fn scan_excl<'p, 't, P>(w: &mut ExclusiveWrapper<'p, 't, <Self as UnsizedType>::Ptr, P>, input: (usize, usize), out: &mut Vec<i128>)
+            where
+                ExclusiveWrapper<'p, 't, <Self as UnsizedType>::Ptr, P>: ExclusiveRecurse,
+            {
+                // the generated `get()`: the live variant's child wrapper
+                let mut sub = vec![];
+                $crate::nodes::acc(out, || match w.get() {
+                    $( $excl::$dv(mut ch) => {
+                        sub.push($crate::nodes::inside::<$dty>(&*ch, input));
+                        <$dty as Node>::scan_excl(&mut ch, input, &mut sub);
+                        $discs::$dv as i128
+                    } )*
+                    $( $excl::$uv => $discs::$uv as i128, )*
+                });
+                out.extend(sub);
             }
             $crate::default_only_inits!();
         }
